@@ -204,10 +204,11 @@ static void c10_check_written(struct stripe *s, const uint8_t *f, int idx, const
     else if (stored_crc(f) != want) vh_violation("wrong-checksum-written", "%s fragment %d: stored 0x%08x, %s CRC-32 of the payload is 0x%08x", what, idx, stored_crc(f), env_is_legacy(s->env) ? "historical" : "standard", want);
     if (f[53] != 0) vh_violation("mismatch-flag-written", "%s fragment %d: mismatch flag byte is %d", what, idx, f[53]);
 }
+static int c10_alt_desc;
 static void c10_verdict(struct stripe *s, uint8_t *m, const char *name)
 {
     int want = ref_mismatch(m, s->flen);
-    fragment_metadata_t md; memset(&md, 0, sizeof md);
+    fragment_metadata_t md; memset(&md, 0xA7, sizeof md);
     vh_op("liberasurecode_get_fragment_metadata"); vh_transitions(2);
     int rc = liberasurecode_get_fragment_metadata((char *)m, &md);
     /* read the flag at its wire offset, not through the struct */
@@ -217,6 +218,12 @@ static void c10_verdict(struct stripe *s, uint8_t *m, const char *name)
     vh_op("is_invalid_fragment");
     int inv = is_invalid_fragment(s->desc, (char *)m);
     if ((inv != 0) != (want != 0)) vh_violation(want ? "damaged-fragment-validated" : "intact-fragment-rejected", "%s: is_invalid_fragment=%d, payload checksum mismatch per reference=%d", name, inv, want);
+    /* the verdict is a property of the fragment, not of the checksum type the validating instance happens to write */
+    if (c10_alt_desc > 0) {
+        vh_transitions(1);
+        inv = is_invalid_fragment(c10_alt_desc, (char *)m);
+        if ((inv != 0) != (want != 0)) vh_violation(want ? "damaged-fragment-validated" : "intact-fragment-rejected", "%s: an instance of the same shape created with checksum type NONE says is_invalid_fragment=%d, payload checksum mismatch per reference=%d", name, inv, want);
+    }
 }
 /* "on any reader": the same fragment as an opposite-endian writer would have laid it out must get the same mismatch verdict */
 static void c10_twin_verdict(struct stripe *s, const uint8_t *w, const char *name)
@@ -279,6 +286,7 @@ static void plan_c10(void)
             struct stripe s;
             if (stripe_open(&s, sh, CHKSUM_CRC32, lens[li], PAT_RAMP, ENVS[e]) == 0) {
                 int n = s.n; uint32_t bs = (uint32_t)(s.flen - WIRE_HDR);
+                c10_alt_desc = create_instance(&sh, CHKSUM_NONE);
                 if (vh_case_begin("written-by-encode")) { vh_nontrivial(); for (int i = 0; i < n; i++) c10_check_written(&s, (uint8_t *)enc_frag(&s, i), i, "encoded"); }
                 for (int d = 0; d < n; d++) {
                     if (!vh_case_begin("written-by-reconstruct/dst%d", d)) continue;
@@ -291,8 +299,9 @@ static void plan_c10(void)
                     if (rc != 0) vh_violation("reconstruct-failed", "dest %d rc=%d", d, rc); else c10_check_written(&s, ob, d, "reconstructed");
                 }
                 /* readers run with the switch unset as well as set: a legacy-written fragment verifies on any reader */
-                for (int reader = 0; reader < 2; reader++) {
-                    set_env(reader ? NULL : ENVS[e]);
+                /* reader 0 runs under the writer's value of the switch, readers 1..5 under each of the five values: "on any reader" */
+                for (int reader = 0; reader < 6; reader++) {
+                    set_env(reader ? ENVS[reader - 1] : ENVS[e]);
                     for (int fi = 0; fi < n; fi += (n > 6 ? n - 1 : 1)) {
                         uint8_t *w = malloc(s.flen);
                         memcpy(w, enc_frag(&s, fi), s.flen);
@@ -303,6 +312,7 @@ static void plan_c10(void)
                             if (bs > 64 && !(byte < 8 || byte >= bs - 8 || (bit & 7) == (byte >> 6 & 7) ) ) continue;
                             if (bs > 64 && byte >= 8 && byte < bs - 8 && (byte & 63) != 17) continue;
                             if (reader && (bit % 3)) continue;
+                            if (reader > 1 && (bit % 15)) continue;
                             if (!vh_case_begin("reader%d/f%d/pbit%u", reader, fi, bit)) continue;
                             vh_nontrivial();
                             w[WIRE_HDR + byte] ^= (uint8_t)(1u << (bit & 7));
@@ -327,6 +337,8 @@ static void plan_c10(void)
                     }
                 }
                 set_env(ENVS[e]);
+                if (c10_alt_desc > 0) liberasurecode_instance_destroy(c10_alt_desc);
+                c10_alt_desc = 0;
             }
             stripe_close(&s, 0);
             vh_group_end();
@@ -338,7 +350,9 @@ static void plan_c10(void)
 static void c11_compare(struct stripe *s, int fi, uint8_t *nat, uint8_t *tw, const char *name)
 {
     /* native and twin carry the same logical values; impl(twin) must agree with the reference on the twin and with impl(native) */
-    fragment_metadata_t a, b; memset(&a, 0, sizeof a); memset(&b, 0, sizeof b);
+    /* the output struct is the caller's and may hold anything (e.g. the result of an earlier query): poison it, so that a field the
+     * library forgets to write on one of the two paths shows as a difference */
+    fragment_metadata_t a, b; memset(&a, 0xA7, sizeof a); memset(&b, 0xA7, sizeof b);
     uint8_t *pn = slot_put(0, nat, s->flen), *pt = slot_put(1, tw, s->flen);
     int acc_n = ref_hdr_ok(nat), acc_t = ref_hdr_ok(tw);
     vh_op("is_invalid_fragment_header"); vh_transitions(4);
@@ -393,6 +407,15 @@ static void plan_c11(void)
                     memcpy(tw, nat, s.flen); wire_byteswap_twin(tw);
                     c11_compare(&s, fi, nat, tw, "payload-bit");
                 }
+                /* 64-bit original length: values that need the upper half (the metadata query only reports this field) */
+                { static const uint64_t ol[] = { 0x100000000ull, 0x100000001ull, 0x8000000000000000ull, 0xffffffffffffffffull, 0x0102030405060708ull, 0xffffffffull, 0x80000000ull };
+                  for (int q = 0; q < 7; q++) {
+                      if (!vh_case_begin("f%d/orig=%lx", fi, (unsigned long)ol[q])) continue;
+                      vh_nontrivial();
+                      memcpy(nat, enc_frag(&s, fi), s.flen); for (int b8 = 0; b8 < 8; b8++) nat[12 + b8] = (uint8_t)(ol[q] >> (8 * b8));
+                      wire_seal(nat, 0); memcpy(tw, nat, s.flen); wire_byteswap_twin(tw);
+                      c11_compare(&s, fi, nat, tw, "original-length");
+                  } }
                 /* header damage on both sides: resealed (both accept) and raw (verdicts per reference) */
                 for (int bit = 0; bit < 71 * 8; bit += (thorough ? 1 : 3)) for (int sl = 0; sl < 2; sl++) {
                     if (bit >= 32 && bit < 96) continue;       /* size fields: forged lengths are out of scope (see DESIGN 3.F) */
@@ -460,6 +483,8 @@ static void plan_c12(void)
                 const uint8_t *base = (uint8_t *)enc_frag(&s, fi);
 #define C12(namefmt, ...) do { char nm[96]; snprintf(nm, sizeof nm, namefmt, __VA_ARGS__); if (vh_case_begin("f%d/%s", fi, nm)) { vh_nontrivial(); c12_one(di, &I, w, s.flen, nm); } } while (0)
                 memcpy(w, base, s.flen); C12("%s", "pristine");
+                /* in-place damage of a fragment that has just validated, seal left as it was (stale): every 5th header bit */
+                for (int bit = 0; bit < 71 * 8; bit += 5) { memcpy(w, base, s.flen); w[bit >> 3] ^= (uint8_t)(1u << (bit & 7)); C12("stale-bit%d", bit); memcpy(w, base, s.flen); if (bit % 25 == 0) C12("pristine-after-bit%d", bit); }
                 uint32_t idxs[] = { 0, (uint32_t)nI - 1, (uint32_t)nI, (uint32_t)nI + 1, 0x80000000u, 0xffffffffu, 31, 32 };
                 for (int x = 0; x < 8; x++) { memcpy(w, base, s.flen); put_le32(w, idxs[x]); wire_seal(w, 0); C12("idx=%u", idxs[x]); }
                 for (int b = 0; b < 256; b++) { memcpy(w, base, s.flen); w[54] = (uint8_t)b; wire_seal(w, 0); C12("backend_id=%d", b); }
@@ -628,6 +653,27 @@ static void plan_c20(void)
                             if (rc == 0 && !exact) vh_count("unforced_decodes_returning_wrong_bytes", 1);
                             if (rc == 0 && exact) vh_count("unforced_decodes_exact", 1);
                         }
+                        if (out && ledger_has(out)) liberasurecode_decode_cleanup(s.desc, out);
+                    }
+                }
+                /* every single payload bit of every fragment, all fragments supplied: a flip that the checksum comparison fails to
+                 * notice (e.g. only part of the stored value compared) would let a damaged data fragment through the fast path */
+                if (S == full) for (int i = 0; i < n; i++) {
+                    uint32_t bs2 = (uint32_t)(s.flen - WIRE_HDR);
+                    for (uint32_t bit = 0; bit < bs2 * 8; bit++) {
+                        if (bs2 > 128 && (bit >> 3) >= 64 && (bit >> 3) < bs2 - 64) continue;
+                        if (!vh_case_begin("B%x/payload-bit%u/force1", 1u << i, bit)) continue;
+                        vh_nontrivial();
+                        char **arr = (char **)(s.gptr.p + s.gptr.len) - n; int nf = 0;
+                        memcpy(w, enc_frag(&s, i), s.flen); w[WIRE_HDR + (bit >> 3)] ^= (uint8_t)(1u << (bit & 7));
+                        for (int j = 0; j < n; j++) arr[nf++] = j == i ? (char *)slot_put(0, w, s.flen) : (char *)frag_at(&s, GP_END, j);
+                        { char opn[96]; snprintf(opn, sizeof opn, "liberasurecode_decode:%s:force1", be_name(sh.be)); vh_op(opn); }
+                        char *out = NULL; uint64_t outlen = 0; vh_transitions(1);
+                        int rc = liberasurecode_decode(s.desc, arr, nf, s.flen, 1, &out, &outlen);
+                        int exact = rc == 0 && outlen == s.len && (!s.len || (out && !memcmp(out, s.data, s.len)));
+                        /* one damaged fragment out of n: the other n-1 >= k valid ones always suffice for these shapes */
+                        if (rc == 0 && !exact) vh_violation("invalid-fragment-changed-result", "fragment %d payload bit %u flipped: forced decode returned success with wrong bytes", i, bit);
+                        else if (rc != 0) vh_violation("refused-although-valid-fragments-suffice", "fragment %d payload bit %u flipped: the other %d fragments are valid but forced decode returned %d", i, bit, n - 1, rc);
                         if (out && ledger_has(out)) liberasurecode_decode_cleanup(s.desc, out);
                     }
                 }
